@@ -143,11 +143,11 @@ def strip_coq_comments(src):
     return "".join(out)
 
 
-def coq_make(targets, timeout=1500, jobs=16):
+def coq_make(targets, timeout=1500, jobs=16, keep_going=False):
     """Build .vo targets (paths relative to coq/).  Returns (ok, log)."""
     with Lock("coq"):
         coq_prepare()
-        cmd = ["timeout", str(timeout), "make", f"-j{jobs}"] + list(targets)
+        cmd = ["timeout", str(timeout), "make", f"-j{jobs}"] + (["-k"] if keep_going else []) + list(targets)
         rc, out = sh(cmd, cwd=COQ, timeout=timeout + 30)
         return rc == 0, out
 
